@@ -50,6 +50,10 @@ impl Drop for Sandbox {
     fn drop(&mut self) {
         if !self.keep {
             let _ = remove_tree(&self.base);
+            if self.base.exists() {
+                // trees deeper than PATH_MAX cannot be removed through absolute paths: rm descends with openat()
+                let _ = std::process::Command::new("rm").arg("-rf").arg(&self.base).status();
+            }
         }
     }
 }
